@@ -2,8 +2,8 @@ package rules
 
 import (
 	"fmt"
-	"os"
 	"go/token"
+	"os"
 	"strings"
 
 	"dtnverif/core"
